@@ -23,6 +23,7 @@ def run(ctx):
     lib_module.array_flags(ctx, P, only=ms)
     lib_module.owned_arrays(ctx, P)
     lib_module.treeseq_readonly(ctx, P)
+    lib_kind.lib_ts_readonly(ctx, P)
     lib_py.immutable_treeseq(ctx, py)
     lib_module.format_types(ctx, P, only=ms)
     lib_module.parsed_used(ctx, P, only=ms)
